@@ -193,7 +193,7 @@ def run_pass(world, pspec, vector):
                 continue
             try:
                 now = snapshot.snap(pool[j])
-            except Exception as e:
+            except faults.CATCH as e:
                 now = ("unsnappable", type(e).__name__, str(e)[:100])
             if now != pool_snaps[j]:
                 viol.append(_viol("C16", "I2", snapshot.snap_diff(pool_snaps[j], now) or "changed", site, pname,
@@ -218,7 +218,7 @@ def run_pass(world, pspec, vector):
         except ops.DependencyFailed as e:
             val = _Raised(e)
             stats["depfail"] += 1
-        except Exception as e:
+        except faults.CATCH as e:
             val = _Raised(e)
             stats["raised"] += 1
             if not getattr(e, "vecsim_injected", False):
@@ -227,6 +227,8 @@ def run_pass(world, pspec, vector):
             faults.set_ctx(None)
         for fk in ctx.fired:
             stats["faults_fired"][fk[0]] += 1
+            if fk[3] == "SimCancel":
+                stats["faults_fired"]["cancel"] = stats["faults_fired"].get("cancel", 0) + 1
         stats["ops"] += 1
         pool.append(val)
         outcomes[f"P:{j}"] = _outcome(val)
@@ -240,7 +242,7 @@ def run_pass(world, pspec, vector):
         check_pool(site)
         try:
             pool_snaps.append(None if isinstance(val, _Raised) else snapshot.snap(val))
-        except Exception as e:
+        except faults.CATCH as e:
             pool_snaps.append(None)
     # writes allowed by a pool op to earlier slots are not generated; nothing to re-snap.
 
@@ -309,7 +311,7 @@ def run_pass(world, pspec, vector):
             except ops.DependencyFailed as e:
                 val = _Raised(e)
                 ok = None
-            except Exception as e:
+            except faults.CATCH as e:
                 val = _Raised(e)
                 ok = False
             sched.atomic[k] += 1
@@ -332,6 +334,8 @@ def run_pass(world, pspec, vector):
                     tb = tb.tb_next
             for fk in ctx.fired:
                 stats["faults_fired"][fk[0]] += 1
+                if fk[3] == "SimCancel":
+                    stats["faults_fired"]["cancel"] = stats["faults_fired"].get("cancel", 0) + 1
             results[k][i] = val
             written = ops.written_refs(op)
             wpriv = [v_ for t_, v_ in written if t_ == "m" and v_ in privs[k]]
@@ -403,7 +407,7 @@ def run_pass(world, pspec, vector):
             for j, m in privs[k].items():
                 try:
                     now = snapshot.snap(m)
-                except Exception as e:
+                except faults.CATCH as e:
                     now = ("unsnappable", type(e).__name__)
                 if j in wm or j not in priv_snaps[k]:
                     priv_snaps[k][j] = now
@@ -577,7 +581,7 @@ def _outcome(val):
         return (snapshot.hashlib.sha256(repr(c).encode()).hexdigest()[:20], f"raise {c[1]}: {c[2][:90]}")
     try:
         c = snapshot.canon(val)
-    except Exception as e:  # a value we cannot even look at is itself an outcome
+    except faults.CATCH as e:  # a value we cannot even look at is itself an outcome
         c = ["UNCANON", type(val).__name__, type(e).__name__, str(e)[:100]]
     s = repr(c)
     return (snapshot.hashlib.sha256(s.encode()).hexdigest()[:20], s[:120])
